@@ -232,7 +232,7 @@ class Offset:
 
     def eval(self):
         if self.kind == "variable":
-            return self.x.flatten()
+            return np.asarray(self.x).flatten()
         else:
             return np.ones((self.size, 1)) * self.x
 
